@@ -883,7 +883,7 @@ func (s *sharedEntryAttributes) validateRange(resultChan chan<- *types.Validatio
 		return
 	}
 
-	lv := s.leafVariants.GetHighestPrecedence(false, true)
+	lv := s.leafVariants.GetHighestPrecedenceRemaining()
 	if lv == nil {
 		return
 	}
@@ -959,7 +959,7 @@ func (s *sharedEntryAttributes) validateRange(resultChan chan<- *types.Validatio
 func (s *sharedEntryAttributes) validateLeafListMinMaxAttributes(resultChan chan<- *types.ValidationResultEntry) {
 	if schema := s.schema.GetLeaflist(); schema != nil {
 		if schema.MinElements > 0 {
-			if lv := s.leafVariants.GetHighestPrecedence(false, true); lv != nil {
+			if lv := s.leafVariants.GetHighestPrecedenceRemaining(); lv != nil {
 				tv, err := lv.Update.Value()
 				if err != nil {
 					resultChan <- types.NewValidationResultEntry(lv.Owner(), fmt.Errorf("validating LeafList Min Attribute: %v", err), types.ValidationResultEntryTypeError)
@@ -986,7 +986,7 @@ func (s *sharedEntryAttributes) validateLength(resultChan chan<- *types.Validati
 			return
 		}
 
-		lv := s.leafVariants.GetHighestPrecedence(false, true)
+		lv := s.leafVariants.GetHighestPrecedenceRemaining()
 		if lv == nil {
 			return
 		}
@@ -1017,7 +1017,10 @@ func (s *sharedEntryAttributes) validatePattern(resultChan chan<- *types.Validat
 		if len(schema.Type.Patterns) == 0 {
 			return
 		}
-		lv := s.leafVariants.GetHighestPrecedence(false, true)
+		lv := s.leafVariants.GetHighestPrecedenceRemaining()
+		if lv == nil {
+			return
+		}
 		tv, err := lv.Update.Value()
 		if err != nil {
 			resultChan <- types.NewValidationResultEntry(lv.Owner(), fmt.Errorf("failed reading value from %s LeafVariant %v: %w", s.Path(), lv, err), types.ValidationResultEntryTypeError)
